@@ -106,7 +106,9 @@ def scripted_histories():
             ({'vapp': 2}, ['newapp:0', 'run', 'grow:wapp', 'grow:wapp', 'run', 'grow:wapp', 'subset:wapp', 'noop']),
             ({'vapp': 0, 'wapp': 2}, ['grow:vapp', 'subset:vapp', 'grow:vapp', 'fail', 'run']),
             # an app that retires itself (DeleteApplication in its own sequence, no models left, still installed)
-            ({'vapp': 1, 'wapp': 2}, ['retire:wapp', 'run', 'noop', 'grow:vapp', 'run', 'noop'])):
+            ({'vapp': 1, 'wapp': 2}, ['retire:wapp', 'run', 'noop', 'grow:vapp', 'run', 'noop']),
+            # the operator marks everything as applied while part of the sequence already is
+            ({'vapp': 2}, ['grow:vapp', 'markall:vapp', 'run', 'noop'])):
         w = World(True)
         w.n.update(n0)
         out.append((w, steps))
@@ -121,7 +123,7 @@ def gen_history(rng):
     if rng.random() < 0.6:
         w.n['wapp'] = rng.randint(0, 2)
     for _ in range(rng.randint(2, 6)):
-        k = rng.choice(['run', 'run', 'run', 'grow', 'grow', 'newapp', 'subset', 'fail', 'noop', 'mark', 'wipe'])
+        k = rng.choice(['run', 'run', 'run', 'grow', 'grow', 'newapp', 'subset', 'fail', 'noop', 'mark', 'wipe', 'markall'])
         steps.append(k)
     return w, steps
 
@@ -230,6 +232,29 @@ def run(ctx):
                 after, _ = observe()
                 real_obs.append({'recorded': after, 'executed': []})
                 log.append({'step': 'mark', 'app': a, 'label': lab})
+            elif k == 'markall':
+                # mark-evolution-applied --all: every label of the app's sequence at once
+                a = arg or ctx.rng.choice(apps_now)
+                seq = w.sequence(a)
+                if not seq:
+                    continue
+                from django.core.management import call_command
+                from django.core.management.base import CommandError
+                try:
+                    call_command('mark-evolution-applied', app_label=a, apply_all=True, interactive=False,
+                                 stdout=io.StringIO())
+                    if a not in known:
+                        marked_unknown = True
+                except CommandError:
+                    pass
+                model_steps.append({'t': 'mark', 'app': a, 'labels': list(seq)})
+                after, _ = observe()
+                real_obs.append({'recorded': after, 'executed': []})
+                log.append({'step': 'mark', 'app': a, 'label': '--all'})
+                keys = [(r[0], r[1]) for r in after]
+                if len(keys) != len(set(keys)) and not marked_unknown:
+                    ctx.fail(None, 'mark-evolution-applied --all recorded a label a second time: %r' % sorted(
+                        k2 for k2 in set(keys) if keys.count(k2) > 1), {'history': log, 'recorded': after})
             elif k == 'wipe':
                 cur, _ = observe()
                 if not cur:
